@@ -304,6 +304,10 @@ class Runner:
             w.finish_connect(self._vc(act["c"]), act["err"])
         elif a == "tick":
             w.tick(1)
+        elif a == "jump":
+            for _ in range(act["n"]):
+                w.s.advance(1)
+                w.run()
         elif a == "stop":
             from . import simrt as _simrt
 
@@ -357,7 +361,10 @@ class Runner:
                             break
             if req is None:
                 raise KeyError("no delivered request matches submit %r" % (act["m"],))
-            ans = app.generate_answer(req, result_code=2001)
+            rc = act["m"].get("rc") or 2001
+            ans = app.generate_answer(req, result_code=rc)
+            if 3000 <= rc < 4000:           # protocol errors travel with the E bit
+                ans.header.is_error = True
             app.submit(ans)
             w.run()
         else:
@@ -648,7 +655,7 @@ class Gen:
             am = abs_from_msg(req)
             typed = am["code"] == 272
             # (answers of commands without a python class carry no AVPs on the wire)
-            ans = M("APP", False, am["hbh"], am["e2e"], app=am["app"], oh=NODE_HOST if typed else "", rc=2001 if typed else 0,
+            ans = M("APP", False, am["hbh"], am["e2e"], app=am["app"], oh=NODE_HOST if typed else "", rc=(3004 if rng.random() < 0.25 else 2001) if typed else 0,
                     typed=typed, code=am["code"])
             return {"a": "submit", "app": name, "m": ans, "c0": self.r.w.msg_conn.get(id(req), (0, None))[0], "_req": req}
         if a == "plan":
